@@ -36,16 +36,16 @@ PROPS = {
     "C07": dict(units=["u4_policy", "u1_estimator"], kani=[], replay=["policy", "estimator", "cache"]),
     "C13": dict(units=["u1_estimator"], kani=["bbloom"], replay=["estimator"]),
     "C14": dict(units=["u1_estimator"], kani=["bbloom"], replay=["estimator"]),
-    "C20": dict(units=["u1_estimator", "u8_builder", "u7_glue"], kani=["bbloom"], replay=["estimator"]),
+    "C20": dict(units=["u1_estimator", "u8_builder", "u7_glue"], kani=["bbloom"], replay=["estimator", "cache"]),
     "C02": dict(units=["u6_store", "u7_glue"], kani=[], replay=["ttl", "cache"]),
     "C03": dict(units=["u6_store", "u7_glue"], kani=["ttl"], replay=["ttl"]),
-    "C04": dict(units=["u6_store", "u4_policy"], kani=["ttl"], replay=["ttl", "policy", "cache"]),
+    "C04": dict(units=["u6_store", "u4_policy", "u7_glue"], kani=["ttl"], replay=["ttl", "policy", "cache"]),
     "C05": dict(units=["u6_store", "u4_policy"], kani=["ttl"], replay=["ttl"]),
     "C09": dict(units=["u6_store", "u7_glue"], kani=[], replay=["ttl", "cache"]),
-    "C18": dict(units=["u6_store", "u7_glue"], kani=["keys"], replay=["ttl"]),
+    "C18": dict(units=["u6_store", "u7_glue"], kani=["keys"], replay=["ttl", "cache"]),
     "C06": dict(units=["u7_glue", "u6_store", "u4_policy"], kani=[], replay=["ttl", "policy", "cache"]),
     "C08": dict(units=["u7_glue", "u6_store"], kani=[], replay=["ttl", "cache"]),
-    "C11": dict(units=["u7_glue", "u6_store", "u4_policy", "u1_estimator"], kani=["histogram"], replay=["ttl", "estimator", "cache"]),
+    "C11": dict(units=["u7_glue", "u6_store", "u4_policy", "u1_estimator"], kani=["histogram"], replay=["ttl", "estimator", "cache", "policy"]),
     "C15": dict(units=["u7_glue", "u1_estimator"], kani=[], replay=["estimator"]),
     "C16": dict(units=["u7_glue", "u4_policy", "u6_store"], kani=[], replay=["policy", "ttl", "cache"]),
     "C17": dict(units=["u7_glue", "u4_policy"], kani=["histogram"], replay=["policy", "cache"]),
